@@ -3,7 +3,11 @@
 (* Trace validator for C14 (and the call histories of C15).                *)
 (* kind "graph": [fields, after, err]: `fields` as in AnchorStore, `after` *)
 (*   = class of every field after the real round trip (0 null/dangling,    *)
-(*   k > 0 the k-th distinct allocation, <<-1>> an error).                 *)
+(*   k > 0 the k-th distinct allocation, <<-1>> an error).  Records of the *)
+(*   payload family (the anchored node is a scalar, a block scalar, a      *)
+(*   sequence, a map, an empty collection, an enum variant ... in several  *)
+(*   parent positions and under several option sets) also carry payload_ok *)
+(*   and toks = <<anchored nodes, alias nodes>> counted in the text.       *)
 (* kind "chain": recursive wrappers; fields = for each node of a parent    *)
 (*   chain the index of the ancestor its weak back edge points to (-1      *)
 (*   none), after = the same read from the rebuilt structure.              *)
@@ -19,7 +23,12 @@ Check(r) ==
   CASE r.kind = "graph" ->
          IF WeakBeforeStrong(r.fields) THEN "ok"                   \* outside the documented domain (strong before weak)
          ELSE IF r.after = <<0 - 1>> THEN "round-trip-failed"
-         ELSE IF SameSharing(r.fields, r.after) THEN "ok" ELSE "sharing-changed"
+         ELSE IF ~SameSharing(r.fields, r.after) THEN "sharing-changed"
+         \* payload family: the rebuilt allocations carry the payloads written, and the text defines each shared node
+         \* once and refers to it everywhere else (counted on the parser's own event stream)
+         ELSE IF "payload_ok" \in DOMAIN r /\ ~r.payload_ok THEN "payload-changed"
+         ELSE IF "toks" \in DOMAIN r /\ r.toks # <<DefCount(r.fields), AliasCount(r.fields)>> THEN "not-emitted-once"
+         ELSE "ok"
     [] r.kind = "chain" -> IF r.after = r.fields THEN "ok" ELSE "back-edge-changed"
     [] r.kind = "history" ->
          IF \E i \in 1..Len(r.results) : r.results[i] # r.fresh[i] THEN "depends-on-history"
